@@ -495,77 +495,135 @@ Section GroupLaw.
     pose proof n_half as Hn. clear - Ha Hq Hn. assert (q = 1) by nia. subst q. lia.
   Qed.
 
+  (* the common core: the decompressed point is c*G and the scalars combine to k *)
+  Lemma recover_core m r s v k rx R' c ri :
+    0 < k < n -> 0 < r < n -> 0 < s < n ->
+    (if Z.odd (v / 2) then r + n else r) = rx -> (Z.odd (v / 2) && (p <=? rx)) = false ->
+    lift_x (Z.odd v) rx = Some R' -> R' = smul c G -> 0 <= c ->
+    modinv r n = Some ri ->
+    eqn ((ri * s) mod n * c + (n - (ri * m) mod n) mod n) k ->
+    recover m r s v = inl (smul k G).
+  Proof.
+    intros Hk Hr Hs Hx Hpx HL HR' Hc Hri Ec.
+    pose proof (mod_n_nonneg (ri * s)) as R2. pose proof (mod_n_nonneg (n - (ri * m) mod n)) as R1.
+    set (u1 := (n - (ri * m) mod n) mod n) in *. set (u2 := (ri * s) mod n) in *.
+    assert (OR'' : on_curve R' = true) by (rewrite HR'; apply sclosed, G_on_curve).
+    assert (N1 : 0 <= u2 * c) by nia. assert (N2 : 0 <= u2 * c + u1) by nia.
+    assert (L : lincomb u2 R' u1 G = smul k G).
+    { rewrite (lincomb_correct prime_p) by (exact G_on_curve || exact OR'').
+      rewrite HR'. rewrite <- smul_mul by (lia || exact G_on_curve).
+      rewrite <- smul_add by (lia || exact G_on_curve).
+      apply smulG_eqn; [exact N2|lia|exact Ec]. }
+    pose proof (smulG_nonzero k Hk) as NZ.
+    assert (T1 : (r =? 0) = false) by lia. assert (T2 : (r <? 0) = false) by lia.
+    assert (T3 : (n <=? r) = false) by lia. assert (T4 : ((s <=? 0) || (n <=? s)) = false) by lia.
+    clear - T1 T2 T3 T4 Hx Hpx HL Hri L NZ.
+    unfold recover. rewrite T1, T2, T3, T4, Hx, Hpx, HL, Hri.
+    change ((n - (ri * m) mod n) mod n) with u1. change ((ri * s) mod n) with u2. rewrite L.
+    destruct (smul k G) as [|qx qy]; [exfalso; apply NZ; reflexivity|reflexivity].
+  Qed.
+
+  (* Both (r, s0, v0) and its negation (r, n - s0, v0 xor 1) recover the signer's key:
+     s0 is the un-normalised s of the nonce, v0 its recovery id. *)
+  Lemma recover_both k m nonce rx ry ki :
+    0 < k < n -> 0 <= m -> 0 < nonce < n ->
+    smul nonce G = Aff rx ry -> modinv nonce n = Some ki ->
+    let r := rx mod n in
+    let s0 := (ki * ((r * k + m) mod n)) mod n in
+    let v0 := (if n <=? rx then 2 else 0) + (if Z.odd ry then 1 else 0) in
+    let v1 := if Z.odd v0 then v0 - 1 else v0 + 1 in
+    r <> 0 -> s0 <> 0 ->
+    recover m r s0 v0 = inl (smul k G) /\ recover m r (n - s0) v1 = inl (smul k G).
+  Proof.
+    intros Hk Hm Hnonce ER Hki r s0 v0 v1 Hr0 Hs0.
+    apply modinv_n_sound in Hki as [Eki Rki].
+    pose proof n_half as Hn.
+    assert (OR : on_curve (Aff rx ry) = true) by (rewrite <- ER; apply sclosed, G_on_curve).
+    pose proof OR as OR'. apply on_curve_inv in OR' as (Frx & Fry & _).
+    assert (Hry : ry <> 0).
+    { intros E0. apply (double_nonzero nonce Hnonce). rewrite ER, E0.
+      cbn [padd]. rewrite Z.eqb_refl. reflexivity. }
+    assert (Hry' : 0 < ry < p) by (unfold in_field in Fry; lia).
+    assert (Rr : 0 <= r < n) by apply mod_n_nonneg.
+    assert (Rs0 : 0 <= s0 < n) by apply mod_n_nonneg.
+    assert (Es0 : eqn s0 (ki * (r * k + m))).
+    { unfold s0. rewrite eqn_mod. apply mul_eqn; [reflexivity|apply eqn_mod]. }
+    assert (Hrn : r mod n <> 0) by (rewrite Z.mod_small; lia).
+    destruct (modinv_n r Hrn) as (ri & Hri & Eri & Rri).
+    assert (Eu1 : eqn ((n - (ri * m) mod n) mod n) (- (ri * m))).
+    { rewrite eqn_mod. rewrite eqn_mod. rewrite eqn_n. reflexivity. }
+    pose proof (scalar_recover ki nonce r k m s0 ri Eki Es0 Eri) as Ecore.
+    assert (Hx : (if n <=? rx then r + n else r) = rx).
+    { apply (rx_of_r n p); [reflexivity|exact p_lt_2n|unfold in_field in Frx; lia]. }
+    assert (Hpx : (p <=? rx) = false) by (unfold in_field in Frx; lia).
+    pose proof (recid_bits (n <=? rx) (Z.odd ry)) as Hbits. cbv zeta in Hbits.
+    fold v0 in Hbits. fold v1 in Hbits. destruct Hbits as (B1 & B2 & B3 & B4).
+    assert (ONeg : on_curve (Aff rx (fneg ry)) = true) by (apply (nclosed (Aff rx ry)); exact OR).
+    split.
+    - apply (recover_core m r s0 v0 k rx (Aff rx ry) nonce ri).
+      + exact Hk.
+      + lia.
+      + lia.
+      + rewrite B1. exact Hx.
+      + rewrite Hpx. apply andb_false_r.
+      + rewrite B2. apply lift_x_complete. exact OR.
+      + symmetry. exact ER.
+      + lia.
+      + exact Hri.
+      + rewrite Eu1, !eqn_mod. exact Ecore.
+    - apply (recover_core m r (n - s0) v1 k rx (Aff rx (fneg ry)) ((- nonce) mod n) ri).
+      + exact Hk.
+      + lia.
+      + lia.
+      + rewrite B3. exact Hx.
+      + rewrite Hpx. apply andb_false_r.
+      + rewrite B4. rewrite <- (fneg_parity ry Hry'). apply lift_x_complete. exact ONeg.
+      + rewrite smulG_neg by lia. rewrite ER. reflexivity.
+      + apply mod_n_nonneg.
+      + exact Hri.
+      + rewrite Eu1, !eqn_mod.
+        assert (E1 : eqn (n - s0) (- s0)) by (rewrite eqn_n; reflexivity).
+        rewrite E1. rewrite <- Ecore.
+        apply add_eqn; [|reflexivity].
+        transitivity (- (ri * s0) * - nonce); [apply mul_eqn; [|reflexivity]; apply eqn_refl'; lia|].
+        rewrite neg_neg_prod. reflexivity.
+  Qed.
+
+  Lemma flip_flip (hi od : bool) :
+    let v0 := (if hi then 2 else 0) + (if od then 1 else 0) in
+    let v1 := if Z.odd v0 then v0 - 1 else v0 + 1 in
+    (if Z.odd v1 then v1 - 1 else v1 + 1) = v0.
+  Proof. destruct hi, od; reflexivity. Qed.
+
   Theorem recover_sign k m nonce r s v :
     0 < k < n -> 0 <= m -> 0 < nonce < n ->
     sign k m nonce = Some (r, s, v) -> r <> 0 ->
     recover m r s v = inl (smul k G).
   Proof.
     intros Hk Hm Hnonce Hs Hr0.
-    pose proof (sign_ranges _ _ _ _ _ _ Hs) as (Rr & Rs & Rv).
     apply sign_inv in Hs as (rx & ry & ki & ER & Hrx & Hki & Hr & H).
     cbv zeta in H. destruct H as (Hs0 & Hcase).
-    rewrite smulxG in ER.
-    apply modinv_n_sound in Hki as [Eki Rki].
-    pose proof n_half as Hn.
-    assert (OR : on_curve (Aff rx ry) = true) by (rewrite <- ER; apply sclosed, G_on_curve).
-    pose proof OR as OR'. apply on_curve_inv in OR' as (Frx & Fry & _).
-    (* the y coordinate of nonce*G is not 0 (no point of order 2) *)
-    assert (Hry : ry <> 0).
-    { intros E0. apply (double_nonzero nonce Hnonce). rewrite ER, E0.
-      cbn [padd]. rewrite Z.eqb_refl. reflexivity. }
-    assert (Hry' : 0 < ry < p) by (unfold in_field in Fry; lia).
-    (* scalars *)
-    set (s0 := (ki * ((r * k + m) mod n)) mod n) in *.
-    assert (Es0 : eqn s0 (ki * (r * k + m))).
-    { unfold s0. rewrite eqn_mod. apply mul_eqn; [reflexivity|apply eqn_mod]. }
-    assert (Hrn : r mod n <> 0) by (rewrite Z.mod_small; lia).
-    destruct (modinv_n r Hrn) as (ri & Hri & Eri & Rri).
-    pose proof (mod_n_nonneg (ri * s)) as R2. pose proof (mod_n_nonneg (n - (ri * m) mod n)) as R1.
-    set (u1 := (n - (ri * m) mod n) mod n) in *. set (u2 := (ri * s) mod n) in *.
-    assert (Eu1 : eqn u1 (- (ri * m))).
-    { unfold u1. rewrite eqn_mod. rewrite eqn_mod. rewrite eqn_n. reflexivity. }
-    pose proof (scalar_recover ki nonce r k m s0 ri Eki Es0 Eri) as Ecore.
-    (* the abscissa *)
-    assert (Hx : (if n <=? rx then r + n else r) = rx).
-    { rewrite Hr. apply (rx_of_r n p); [reflexivity|exact p_lt_2n|unfold in_field in Frx; lia]. }
-    assert (Hpx : (p <=? rx) = false) by (unfold in_field in Frx; lia).
-    (* the range tests of recover *)
-    assert (T1 : (r =? 0) = false) by lia. assert (T2 : (r <? 0) = false) by lia.
-    assert (T3 : (n <=? r) = false) by lia. assert (T4 : ((s <=? 0) || (n <=? s)) = false) by lia.
-    pose proof (recid_bits (n <=? rx) (Z.odd ry)) as Hbits. cbv zeta in Hbits.
-    destruct Hbits as (B1 & B2 & B3 & B4).
-    assert (ONeg : on_curve (Aff rx (fneg ry)) = true) by (apply (nclosed (Aff rx ry)); exact OR).
-    (* both cases: the decompressed point R' and a scalar c with R' = c*G and u2*c + u1 = k (mod n) *)
-    assert (Main : exists R' c, lift_x (Z.odd v) rx = Some R' /\ Z.odd (v / 2) = (n <=? rx) /\
-                   R' = smul c G /\ 0 <= c /\ eqn (u2 * c + u1) k).
-    { destruct Hcase as [(Hh & Es & Ev)|(Hh & Es & Ev)].
-      - exists (Aff rx (fneg ry)), ((- nonce) mod n).
-        rewrite Ev, B3, B4. rewrite <- (fneg_parity ry Hry').
-        split; [apply lift_x_complete; exact ONeg|]. split; [reflexivity|].
-        split; [rewrite smulG_neg by lia; rewrite ER; reflexivity|].
-        split; [apply mod_n_nonneg|].
-        unfold u2. rewrite Eu1, !eqn_mod, Es.
-        assert (E1 : eqn (n - s0) (- s0)) by (rewrite eqn_n; reflexivity).
-        rewrite E1. rewrite <- Ecore.
-        apply add_eqn; [|reflexivity].
-        transitivity (- (ri * s0) * - nonce); [apply mul_eqn; [|reflexivity]; apply eqn_refl'; lia|].
-        rewrite neg_neg_prod. reflexivity.
-      - exists (Aff rx ry), nonce.
-        rewrite Ev, B1, B2.
-        split; [apply lift_x_complete; exact OR|]. split; [reflexivity|].
-        split; [symmetry; exact ER|]. split; [lia|].
-        unfold u2. rewrite Eu1, !eqn_mod, Es. exact Ecore. }
-    destruct Main as (R' & c & HL & Hhi & HR' & Hc & Ec).
-    assert (OR'' : on_curve R' = true) by (rewrite HR'; apply sclosed, G_on_curve).
-    assert (L : lincomb u2 R' u1 G = smul k G).
-    { rewrite (lincomb_correct prime_p) by (exact G_on_curve || exact OR'').
-      rewrite HR'. rewrite <- smul_mul by (lia || exact G_on_curve).
-      rewrite <- smul_add by (try exact G_on_curve; nia).
-      apply smulG_eqn; [nia|lia|exact Ec]. }
-    pose proof (smulG_nonzero k Hk) as NZ.
-    clear - T1 T2 T3 T4 Hhi Hx Hpx HL Hri L NZ.
-    unfold recover. rewrite T1, T2, T3, T4, Hhi, Hx, Hpx, andb_false_r, HL, Hri.
-    change ((n - (ri * m) mod n) mod n) with u1. change ((ri * s) mod n) with u2. rewrite L.
-    destruct (smul k G) as [|qx qy]; [exfalso; apply NZ; reflexivity|reflexivity].
+    rewrite smulxG in ER. subst r.
+    destruct (recover_both k m nonce rx ry ki Hk Hm Hnonce ER Hki Hr0 Hs0) as [A B].
+    destruct Hcase as [(_ & -> & ->)|(_ & -> & ->)]; assumption.
+  Qed.
+
+  (* the malleated signature (r, n - s, recid xor 1) of a produced signature recovers the
+     same key: whether it is ACCEPTED therefore depends on the bit test of n - s alone *)
+  Theorem malleated_recovers_signer k m nonce r s v :
+    0 < k < n -> 0 <= m -> 0 < nonce < n ->
+    sign k m nonce = Some (r, s, v) -> r <> 0 ->
+    recover m r (n - s) (if Z.odd v then v - 1 else v + 1) = inl (smul k G).
+  Proof.
+    intros Hk Hm Hnonce Hs Hr0.
+    apply sign_inv in Hs as (rx & ry & ki & ER & Hrx & Hki & Hr & H).
+    cbv zeta in H. destruct H as (Hs0 & Hcase).
+    rewrite smulxG in ER. subst r.
+    destruct (recover_both k m nonce rx ry ki Hk Hm Hnonce ER Hki Hr0 Hs0) as [A B].
+    destruct Hcase as [(_ & -> & ->)|(_ & -> & ->)].
+    - rewrite (flip_flip (n <=? rx) (Z.odd ry)).
+      replace (n - (n - (ki * ((rx mod n * k + m) mod n)) mod n)) with ((ki * ((rx mod n * k + m) mod n)) mod n) by lia.
+      exact A.
+    - exact B.
   Qed.
 End GroupLaw.
